@@ -76,6 +76,21 @@ CHECKS = {'C01': {'level': 'exploration',
                     'checks': {'quick': 8000, 'thorough': 40000},
                     'shards': {'quick': 1, 'thorough': 16},
                     'timeout': {'quick': 600, 'thorough': 3000}}]},
+ 'C06': {'level': 'exploration',
+         'rule': 'sequential part: model-based histories over all column kinds (late columns, custom merges, key operations, rollbacks, prefills to '
+                 '3 blocks, bulk deletes, index create/drop mirrored on the replica) on a primary whose commits go to a real commit.Channel AND a '
+                 "serialized commit.Log (in memory; every 4th case a real file). Replica 1 replays the channel's cloned commits incrementally and is "
+                 'compared with the reference model (rows, values, Count, key lookups, index contents) at drawn intermediate points and at the end; '
+                 'replica 2 replays the whole serialized log at the end and is compared the same way; the number of commits through both paths must '
+                 'agree. concurrent part (TestC06Sched): generated multi-block writer programs under the cooperative scheduler (random + exhaustive '
+                 'schedules), recorded stream replayed in emission order, primary == replica. non-trivial = the history contains a multi-block '
+                 'commit, a merge or an offset reuse and >=1 commit was replayed; distinct = hash of trace/schedule',
+         'assumptions': ['the replica has the same schema (columns created at the same history points) and the same index definitions',
+                         'comparison happens when the primary is quiescent'],
+         'tests': [{'run': '^TestC06$',
+                    'checks': {'quick': 200, 'thorough': 2500},
+                    'shards': {'quick': 1, 'thorough': 8},
+                    'timeout': {'quick': 900, 'thorough': 3400}}]},
  'C07': {'level': 'exploration',
          'rule': 'model-based stateful histories over all column kinds (enum, bool, record, key, expire, late columns, custom merges), all Capacity '
                  'options, 0..3 blocks with patterned bulk deletes and offset reuse; action snapshotRestore (up to 3 per history): Snapshot to a '
@@ -125,6 +140,21 @@ CHECKS = {'C01': {'level': 'exploration',
          'tests': [{'run': '^TestC12$',
                     'checks': {'quick': 400, 'thorough': 4000},
                     'shards': {'quick': 1, 'thorough': 16},
+                    'timeout': {'quick': 900, 'thorough': 3400}}]},
+ 'C15': {'level': 'exploration',
+         'rule': 'sequential part: model-based histories (single/multi-block, read-only, rolled back, failing inserts, key operations, prefills, '
+                 'bulk deletes) on a collection whose logger records every commit AND forwards it through a real commit.Channel. Oracle per '
+                 'transaction: the multiset of blocks of the commits it emitted == the set of blocks its committed operations touched in the '
+                 'reference model (nothing for rollbacks, read-only and no-op transactions); stream-wide: every ID (also as received through the '
+                 'channel) is non-zero and pairwise distinct and, per block, strictly increasing in record order. concurrent part (TestC15Sched): '
+                 'generated writer programs under the cooperative scheduler with random and exhaustively enumerated schedules at the commit-protocol '
+                 'yield points, same ID/ordering/exactly-once invariants over the recorded stream. non-trivial = a multi-block transaction '
+                 '(sequential) / two tasks whose commits on one block were adjacent with both pre-latch points passed before either latched '
+                 '(schedules); distinct = hash of trace/schedule',
+         'assumptions': ['record order at the logger is apply order (Append is called under the block latch)'],
+         'tests': [{'run': '^TestC15$',
+                    'checks': {'quick': 250, 'thorough': 2500},
+                    'shards': {'quick': 1, 'thorough': 8},
                     'timeout': {'quick': 900, 'thorough': 3400}}]},
  'C16': {'level': 'exploration',
          'rule': 'model-based stateful histories over a string column whose values come from a 5-value alphabet with forced duplicates (incl. the '
